@@ -149,7 +149,12 @@ func c15Fallback(c *core.Ctx) {
 }
 
 func c15Malformed(c *core.Ctx) {
-	fn := c.Fn("controller/services", "c.GetTLSSecretPath")
+	c15MalformedIn(c, "controller/services", "c.GetTLSSecretPath", "")
+	c15MalformedIn(c, "controller/legacy", "k8scache.GetTLSSecretPath", "legacy ")
+}
+
+func c15MalformedIn(c *core.Ctx, pkg, name, pfx string) {
+	fn := c.Fn(pkg, name)
 	if fn == nil {
 		return
 	}
@@ -161,7 +166,7 @@ func c15Malformed(c *core.Ctx) {
 			continue
 		}
 		l := sliceLeaves(c.Env, res[0], 0)
-		if !leavesContain(l, "getCertificate") {
+		if !leavesContain(l, "getCertificate") && !leavesContain(l, "GetCertificate") {
 			continue // file:// branch
 		}
 		n++
@@ -179,25 +184,28 @@ func c15Malformed(c *core.Ctx) {
 		_ = w
 		t := core.ExtractTable(fn)
 		if t.Err != "" {
-			c.Undecided("GetTLSSecretPath rejects a secret without certificate", at(c, ret), t.Err)
+			c.Undecided(pfx+"GetTLSSecretPath rejects a secret without certificate", at(c, ret), t.Err)
 			continue
 		}
 		b, err := t.Bind(matchers{"nofile": has(`.PemFileName == "")`), "nocrt": has(".Certificate == nil)")})
 		if err != nil {
-			c.Violated("GetTLSSecretPath rejects a secret without certificate", at(c, ret), "the tests `PemFileName == \"\"` / `Certificate == nil` are not both present: "+err.Error())
+			c.Violated(pfx+"GetTLSSecretPath rejects a secret without certificate", at(c, ret), "the tests `PemFileName == \"\"` / `Certificate == nil` are not both present: "+err.Error())
 			continue
 		}
 		cond, _ := t.InstrCond(ret)
 		ok, diff, _ := t.Compare(cond, b, func(v map[string]bool) bool { return false }, func(v map[string]bool) bool { return v["nofile"] || v["nocrt"] })
-		c.Check(ok, "GetTLSSecretPath rejects a secret without certificate", at(c, ret), "success is returned only when a PEM file and a parsed certificate exist", "a secret without tls.crt/tls.key (or unparsable) is returned as a valid certificate: "+diff)
+		c.Check(ok, pfx+"GetTLSSecretPath rejects a secret without certificate", at(c, ret), "success is returned only when a PEM file and a parsed certificate exist", "a secret without tls.crt/tls.key (or unparsable) is returned as a valid certificate: "+diff)
 	}
 	if n == 0 {
-		c.Violated("GetTLSSecretPath success return", c.Pos(fn.Pos()), "not found")
+		c.Violated(pfx+"GetTLSSecretPath success return", c.Pos(fn.Pos()), "not found")
 	}
 	// every error of resolve/read is returned
 	for _, s := range core.Calls(fn, false) {
 		cn := core.CalleeName(s.Common())
-		if strings.HasSuffix(cn, ".getCertificate") || strings.HasSuffix(cn, ".buildResourceName") {
+		if s.Common().IsInvoke() && s.Common().Method.Name() == "GetCertificate" {
+			cn = "iface.GetCertificate"
+		}
+		if strings.HasSuffix(cn, ".getCertificate") || strings.HasSuffix(cn, ".GetCertificate") || strings.HasSuffix(cn, ".buildResourceName") {
 			base := cn[strings.LastIndex(cn, ".")+1:]
 			ok := false
 			for _, ret := range core.Returns(fn) {
@@ -207,7 +215,7 @@ func c15Malformed(c *core.Ctx) {
 					ok = true
 				}
 			}
-			c.Check(ok, "GetTLSSecretPath returns the error of "+base, at(c, s.Instr), "", "the error of "+base+" is not returned: addTLS would not fall back to the default certificate")
+			c.Check(ok, pfx+"GetTLSSecretPath returns the error of "+base, at(c, s.Instr), "", "the error of "+base+" is not returned: addTLS would not fall back to the default certificate")
 		}
 	}
 }
